@@ -385,7 +385,7 @@ def gen_pipeline(R, rng, fsets):
                   cls="reassoc", model=fs["name"], suffix=".bin", sym="gain re-association", desc="(A*Hinv)*S vs A*(Hinv*S) on %s" % fs["name"])
 
 def gen_tools_cases(R, rng, quick, fsets):
-    tools = {t["name"]: t for t in R.tools}
+    tools = dict.fromkeys(TOOL_PATH); tools.update({t["name"]: t for t in R.tools})   # a tool the translator could not read is still run
     fs = fsets[0]; od = fs["dir"]
     sfx = lambda: rng.choice(SUFFIXES)
     if "om_forward" in tools and "gain_eeg" in fs:
@@ -635,9 +635,10 @@ def evaluate(ck, R, c, pred, rc, txt, before, after, hres):
     exp = c["expect"]
     if c["tool"] is not None:
         if pred is None:
-            P("model", "the model has no prediction for this tool (translator table incomplete)"); return probs
+            pred = dict(final="run" if exp in ("ok", "status", "noisy", "probe") else "exit", code=rc if exp != "ok" else 0, execs=[], vals=None, plan=c.get("plan"), absent=True)
         # ---- correspondence model <-> executable on the exit class
-        if pred["final"] == "exit":
+        if pred.get("absent"): pass
+        elif pred["final"] == "exit":
             if rc != (pred["code"] & 0xff):
                 P("exit status differs from the model", "the model of commandline.h predicts exit status %d" % pred["code"])
             if not pred["execs"] and written:
@@ -701,7 +702,7 @@ def evaluate(ck, R, c, pred, rc, txt, before, after, hres):
             P("missing input file ignored", "the %s file (parameter %d) does not exist but the tool succeeded: it is read from another position" % (r, p))
         if any(os.path.exists(q) for q in c["probe_outs"]):
             P("output written although an input is missing", "outputs: %s" % [os.path.basename(q) for q in c["probe_outs"] if os.path.exists(q)])
-    if c.get("plan") and pred is not None:
+    if c.get("plan") and pred is not None and not pred.get("absent"):
         if pred.get("plan") != c["plan"]:
             P("conversion plan differs from the documentation", "model (generated from the source): %s, documented: %s" % (pred.get("plan"), c["plan"]))
     if exp == "noisy":
@@ -714,7 +715,7 @@ def evaluate(ck, R, c, pred, rc, txt, before, after, hres):
                 d = [u - v for u, v in zip(x, y)]; rms = (sum(e * e for e in d) / max(1, len(d))) ** 0.5
                 if not (0.15 * lvl <= rms <= 4.0 * lvl): P("noise level not honoured", "rms difference to the noiseless data %.3g for level %g (%d values)" % (rms, lvl, len(d)))
     # ---- typed options: value the model extracts = value documented
-    if c.get("typed") and pred is not None:
+    if c.get("typed") and pred is not None and pred.get("vals") is not None:
         t = R.tools[R.tidx[c["tool"]]]
         for name, val in c["typed"].items():
             idx = [k for k, d in enumerate(t["decls"]) if d["name"] == name]
@@ -770,8 +771,8 @@ def main(replay=None):
             preds[c["id"]] = parse_model(mo[k]); k += 1
     # om_matrix_convert: the library call is made with the file names and formats the MODEL predicts (no suffix logic in the harness)
     for c in keep:
-        if c.get("conv") and preds.get(c["id"]) and preds[c["id"]].get("plan"):
-            pl = preds[c["id"]]["plan"]; kind, ref = c["conv"]
+        if c.get("conv"):
+            pl = (preds.get(c["id"]) or {}).get("plan") or c["plan"]; kind, ref = c["conv"]     # documented plan when the tool could not be translated
             if pl["inp"] and pl["out_fmt"]:
                 c["hcase"] = "MCONV %s %s %s %s %s" % (kind, pl["inp"], ref, "-" if pl["in_fmt"] == "auto" else pl["in_fmt"], pl["out_fmt"])
     # ---- executables (in order: later cases read files written by earlier ones)
